@@ -59,6 +59,15 @@ pub fn apply(lib: &Library) -> SemanticResult {
     visitor.walk(lib).map_err(|e| vec![e])
 }
 
+/// Returns true if the value is one of the defined values.
+///
+/// The type name prefix is optional both where the value is defined and
+/// where it is used (`LEVEL#INFO` and `INFO` are the same value), so only
+/// the value name decides.
+fn is_defined(defined_values: &[EnumeratedValue], value: &EnumeratedValue) -> bool {
+    defined_values.iter().any(|def| def.value == value.value)
+}
+
 struct RuleDeclaredEnumeratedValues<'a> {
     enum_defs: &'a HashMap<Type, &'a EnumerationDeclaration>,
 }
@@ -132,7 +141,7 @@ impl Visitor<Diagnostic> for RuleDeclaredEnumeratedValues<'_> {
         // be one of the values of the enumeration
         if let Some(value) = &node.spec_init.default {
             let defined_values = self.find_enum_declaration_values(&node.type_name)?;
-            if !defined_values.contains(value) {
+            if !is_defined(defined_values, value) {
                 return Err(Diagnostic::problem(
                     Problem::EnumValueNotDefined,
                     Label::span(value.span(), "Expected value in enumeration"),
@@ -149,10 +158,7 @@ impl Visitor<Diagnostic> for RuleDeclaredEnumeratedValues<'_> {
     ) -> Result<Self::Value, Diagnostic> {
         let defined_values = self.find_enum_declaration_values(&init.type_name)?;
         if let Some(value) = &init.initial_value {
-            // TODO this is using the Id, but not the full enumerated value
-            // and we don't have declared appropriate comparison between things
-            // that are known but partially declared
-            if !defined_values.contains(value) {
+            if !is_defined(defined_values, value) {
                 return Err(Diagnostic::problem(
                     Problem::EnumValueNotDefined,
                     Label::span(value.span(), "Expected value in enumeration"),
@@ -200,6 +206,26 @@ END_TYPE
 FUNCTION_BLOCK LOGGER
 VAR_INPUT
 LEVEL : LEVEL := CRITICAL;
+END_VAR
+END_FUNCTION_BLOCK";
+
+        let library = parse_and_resolve_types(program);
+        let result = apply(&library);
+
+        assert!(result.is_ok());
+    }
+
+    #[test]
+    fn apply_when_value_qualified_by_type_name_then_ok() {
+        let program = "
+TYPE
+LEVEL : (INFO, LEVEL#CRITICAL) := INFO;
+END_TYPE
+
+FUNCTION_BLOCK LOGGER
+VAR_INPUT
+A : LEVEL := LEVEL#INFO;
+B : LEVEL := CRITICAL;
 END_VAR
 END_FUNCTION_BLOCK";
 
